@@ -981,14 +981,15 @@ def judge_corr(inp, obs, lr):
         if m["shape"] != st["shape"]:
             return {"expected": {"shape": m["shape"]}, "observed": {"shape": st["shape"]}, "tags": dict(tag, what="shape")}
         mp = N.dec(m["proj"])
-        if not O.allclose(st["proj"], mp, 1e-8):
+        # objects are projective: primary and derived data are compared row by row up to a non-zero scalar
+        if np.asarray(st["proj"]).shape != mp.shape or not O.rows_proj_eq(st["proj"], mp, 1e-8):
             return {"expected": {"proj": mp.tolist()}, "observed": {"proj": st["proj"]}, "tags": dict(tag, what="proj")}
         if (m["aux"] is None) != (st["aux"] is None):
             return {"expected": {"aux": m["aux"] is not None}, "observed": {"aux": st["aux"] is not None}, "tags": dict(tag, what="aux-presence")}
         if m["aux"] is not None:
             ma = N.dec(m["aux"])
             ia = np.array(st["aux"])
-            ok = ma.shape == ia.shape and (O.allclose(ia, ma, 1e-7) or (kind == "segment" and O.aux_proj_eq(kind, ia, ma, 1e-7)))
+            ok = ma.shape == ia.shape and O.aux_proj_eq(kind, ia, ma, 1e-7)
             if not ok:
                 return {"expected": {"aux": ma.tolist()}, "observed": {"aux": st["aux"]}, "tags": dict(tag, what="aux")}
     return None
